@@ -30,3 +30,51 @@ package str
 //@   ensures {C01} wrongtype: len(params.Command) == 4 && old(slive(params, skey(params))) && !old(isstr(sval(params, skey(params)))) ==> result1 != nil
 //@   ensures {C01} forward: len(params.Command) == 4 && isint(internal.adapt(sarg(params, 2))) && isint(internal.adapt(sarg(params, 3))) && old(slive(params, skey(params))) && old(isstr(sval(params, skey(params)))) && sstart(params, len(old(asstr(sval(params, skey(params)))))) <= send(params, len(old(asstr(sval(params, skey(params)))))) ==> result1 == nil && bstr(result0) == sbulk(old(asstr(sval(params, skey(params))))[clampidx(len(old(asstr(sval(params, skey(params))))), sstart(params, len(old(asstr(sval(params, skey(params))))))):clampidx(len(old(asstr(sval(params, skey(params))))), send(params, len(old(asstr(sval(params, skey(params)))))))])
 //@   ensures {C13,C01} pure: spure(params)
+
+//@ spec sstore(params internal.HandlerFuncParams) map[string]internal.KeyData = $srv.store[dbof(params.Context)]
+//@ spec sothers(params internal.HandlerFuncParams) bool = forall k string :: k != skey(params) && has(sstore(params), k) ==> old(has(sstore(params), k)) && sstore(params)[k].Value == old(sstore(params)[k].Value)
+//@ spec sonstr(params internal.HandlerFuncParams) bool = old(slive(params, skey(params))) && old(isstr(sval(params, skey(params))))
+//@ spec s0(params internal.HandlerFuncParams) string = old(asstr(sval(params, skey(params))))
+
+// ---- STRLEN key: the length in bytes of the string stored at key; 0 for a missing key.
+//@ func handleStrLen props C01,C12,C13
+//@   requires generic.henv(params)
+//@   assumes own-cmd: len(params.Command) >= 2 ==> disjointarr(params.Command, $srv.keysWithExpiry.keys[dbof(params.Context)])
+//@   ensures {C01} arity: len(params.Command) != 2 ==> result1 != nil
+//@   ensures {C01} missing: len(params.Command) == 2 && !old(slive(params, skey(params))) ==> result1 == nil && bstr(result0) == ":0\r\n"
+//@   ensures {C01} wrongtype: len(params.Command) == 2 && old(slive(params, skey(params))) && !old(isstr(sval(params, skey(params)))) ==> result1 != nil
+//@   ensures {C01} length: len(params.Command) == 2 && sonstr(params) ==> result1 == nil && bstr(result0) == ":" ++ (itoa(len(s0(params))) ++ "\r\n")
+//@   ensures {C13,C01} pure: spure(params)
+
+// ---- APPEND key value: the stored value becomes adapt(old ++ value) (adapt(value) for a missing key); the reply is the new length.
+//@ func handleAppend props C01,C12
+//@   requires generic.henv(params)
+//@   assumes own-cmd: len(params.Command) >= 2 ==> disjointarr(params.Command, $srv.keysWithExpiry.keys[dbof(params.Context)])
+//@   ensures {C01} arity: len(params.Command) != 3 ==> result1 != nil
+//@   ensures {C01} created: result1 == nil && !old(slive(params, skey(params))) ==> has(sstore(params), skey(params)) && sval(params, skey(params)) == internal.adapt(sarg(params, 2)) && bstr(result0) == ":" ++ (itoa(len(sarg(params, 2))) ++ "\r\n")
+//@   ensures {C01} wrongtype: len(params.Command) == 3 && old(slive(params, skey(params))) && !old(isstr(sval(params, skey(params)))) ==> result1 != nil && sval(params, skey(params)) == old(sval(params, skey(params)))
+//@   ensures {C01} appended: result1 == nil && sonstr(params) ==> has(sstore(params), skey(params)) && sval(params, skey(params)) == internal.adapt(s0(params) ++ sarg(params, 2)) && bstr(result0) == ":" ++ (itoa(len(s0(params)) + len(sarg(params, 2))) ++ "\r\n")
+//@   ensures {C01,C20} others: sothers(params)
+
+// ---- SETRANGE key offset value (offsets and lengths in bytes): a missing key is created with the value; an offset at or past
+// the end appends, a negative offset prepends, otherwise the bytes from the offset on are overwritten (the string grows when
+// the value reaches past its end). The reply is the new length.
+//@ spec soff(params internal.HandlerFuncParams) int = asint(internal.adapt(sarg(params, 2)))
+//@ spec snewlen(params internal.HandlerFuncParams) int = soff(params) + len(sarg(params, 3)) > len(s0(params)) ? soff(params) + len(sarg(params, 3)) : len(s0(params))
+
+//@ func handleSetRange props C01,C12
+//@   requires generic.henv(params)
+//@   assumes own-cmd: len(params.Command) >= 2 ==> disjointarr(params.Command, $srv.keysWithExpiry.keys[dbof(params.Context)])
+//@   ensures {C01} arity: len(params.Command) != 4 ==> result1 != nil
+//@   ensures {C01} badoffset: len(params.Command) == 4 && !isint(internal.adapt(sarg(params, 2))) ==> result1 != nil
+//@   ensures {C01} created: result1 == nil && !old(slive(params, skey(params))) ==> has(sstore(params), skey(params)) && isstr(sval(params, skey(params))) && asstr(sval(params, skey(params))) == sarg(params, 3) && bstr(result0) == ":" ++ (itoa(len(sarg(params, 3))) ++ "\r\n")
+//@   ensures {C01} wrongtype: len(params.Command) == 4 && isint(internal.adapt(sarg(params, 2))) && old(slive(params, skey(params))) && !old(isstr(sval(params, skey(params)))) ==> result1 != nil && sval(params, skey(params)) == old(sval(params, skey(params)))
+//@   ensures {C01} appended: result1 == nil && sonstr(params) && soff(params) >= len(s0(params)) ==> isstr(sval(params, skey(params))) && asstr(sval(params, skey(params))) == s0(params) ++ sarg(params, 3)
+//@   ensures {C01} prepended: result1 == nil && sonstr(params) && soff(params) < 0 ==> isstr(sval(params, skey(params))) && asstr(sval(params, skey(params))) == sarg(params, 3) ++ s0(params)
+//@   ensures {C01} overwritten-len: result1 == nil && sonstr(params) && 0 <= soff(params) && soff(params) < len(s0(params)) ==> isstr(sval(params, skey(params))) && len(asstr(sval(params, skey(params)))) == snewlen(params) && bstr(result0) == ":" ++ (itoa(snewlen(params)) ++ "\r\n")
+//@   ensures {C01} overwritten: result1 == nil && sonstr(params) && 0 <= soff(params) && soff(params) < len(s0(params)) ==> (forall j int :: 0 <= j && j < snewlen(params) ==> at(asstr(sval(params, skey(params))), j) == ((j >= soff(params) && j < soff(params) + len(sarg(params, 3))) ? at(sarg(params, 3), j - soff(params)) : at(s0(params), j)))
+//@   ensures {C01,C20} others: sothers(params)
+//@   loop 0
+//@     invariant 0 <= i && i <= len(newStr) && offset == soff(params) + i && offset <= len(str) && samearr(strBytes, strBytes) && len(strBytes) == len(str) && newStr == sarg(params, 3) && str == s0(params) && sonstr(params) && 0 <= soff(params) && soff(params) < len(str) && fresh(strBytes)
+//@     invariant forall j int :: 0 <= j && j < len(str) ==> strBytes[j] == ((j >= soff(params) && j < offset) ? at(newStr, j - soff(params)) : at(str, j))
+//@     invariant generic.henv(params) && spure(params)
